@@ -10,7 +10,7 @@ from dask.utils import apply
 from dask_expr import SetIndexBlockwise, new_collection
 from dask_expr._expr import MapPartitions, RenameAxis, ResetIndex
 from dask_expr._merge import Merge
-from dask_expr._util import _BackendData
+from dask_expr._util import _BackendData, _convert_to_list
 from dask_expr.io import FromPandas
 
 
@@ -41,6 +41,12 @@ class MergeAsof(Merge):
         "allow_exact_matches": True,
         "direction": "backward",
     }
+
+    def _additional_key_columns(self):
+        return (
+            _convert_to_list(self.left_by) or [],
+            _convert_to_list(self.right_by) or [],
+        )
 
     @functools.cached_property
     def _kwargs(self):
@@ -173,6 +179,11 @@ class MergeAsofIndexed(MergeAsof):
         "allow_exact_matches",
         "direction",
     ]
+
+    # merged on the index of both inputs (the projection rule inherited from
+    # Merge consults them)
+    left_on = None
+    right_on = None
 
     def _divisions(self):
         return self.left.divisions
